@@ -12,6 +12,7 @@ import random
 import struct
 from typing import Any, Dict, Iterator, List, Tuple
 
+import core
 from core import Case, Prop, SelfCheckFailure
 
 from spacepackets.ccsds.spacepacket import PacketId, PacketSeqCtrl, PacketType, SequenceFlags
@@ -62,7 +63,7 @@ def _tc(f) -> PusTc:
             tc.sp_header.seq_flags = SequenceFlags(flags)
         else:
             # through the decoder: a telecommand as received, with these header bits
-            raw = bytearray(tc.pack())
+            raw = bytearray(core.pack_stable(tc, "PusTc.pack()"))
             raw[0] = (v << 5) | (t << 4) | (s << 3) | (apid >> 8)
             raw[1] = apid & 0xFF
             raw[2] = (flags << 6) | (count >> 8)
@@ -101,7 +102,9 @@ def _tm(f, sub: int, stepval, mode: int, width: int) -> Service1Tm:
         tm = Service1Tm(apid=0x55, subservice=Subservice(sub) if 0 <= sub <= 8 else sub, timestamp=TIMESTAMP,
                         verif_params=VerificationParams(_req(f), step, fail), seq_count=sub)
         if mode == MK_DECODED and 1 <= sub <= 8:
-            tm = Service1Tm.unpack(bytes(tm.pack()), UnpackParams(len(TIMESTAMP), width, 1))
+            tm = Service1Tm.unpack(core.pack_stable(tm, "Service1Tm.pack()"),
+                                   core.REUSE.get(["UnpackParams", len(TIMESTAMP), width, 1],
+                                                  lambda: UnpackParams(len(TIMESTAMP), width, 1)))
     if len(_tm_cache) < 200000:
         _tm_cache[key] = tm
     return tm
@@ -127,6 +130,15 @@ def _snapshot(v: PusVerificator, n_calls: int):
         raise SelfCheckFailure(f"two dictionary entries have the same 32-bit request id: {sorted(ks)}")
     items.sort(key=lambda e: e[0])
     return [[k, s] for k, s in items]
+
+
+def _tracker_view(v: PusVerificator):
+    return sorted([int(k.as_u32()), _status(s)] for k, s in v.verif_dict.items())
+
+
+# trackers are separate objects: what a later tracker is told must not change the records of an earlier one
+# (the reports and telecommands handed to them ARE shared between the lines, see _tc_cache / _tm_cache)
+_TRACKERS = core.Isolation(keep=1)
 
 
 def op_verif_run(a):
@@ -172,6 +184,7 @@ def op_verif_run(a):
             raise AssertionError(st)
         outs.append(out)
         dicts.append(_snapshot(v, len(outs)))
+    _TRACKERS.check("C16.tracker", v, _tracker_view)
     return {"outs": outs, "dicts": dicts}
 
 
